@@ -39,6 +39,18 @@ func TypeString(t reflect.Type) string {
 	return t.String()
 }
 
+func opaque(t reflect.Type) bool {
+	if t.NumField() == 0 {
+		return false
+	}
+	for i := 0; i < t.NumField(); i++ {
+		if t.Field(i).IsExported() {
+			return false
+		}
+	}
+	return true
+}
+
 func Dump(v any) string {
 	var b strings.Builder
 	rv := reflect.ValueOf(v)
@@ -103,6 +115,11 @@ func dump(b *strings.Builder, v reflect.Value) {
 		sort.Strings(ents)
 		b.WriteString("{" + strings.Join(ents, ",") + "}")
 	case reflect.Struct:
+		if opaque(v.Type()) {
+			// a struct type without exported fields cannot be spelled as a literal: outside the compared domain
+			b.WriteString("<opaque>")
+			return
+		}
 		b.WriteString("{")
 		for i := 0; i < v.NumField(); i++ {
 			if i > 0 {
